@@ -297,11 +297,14 @@ def assignments_to(prog, adt, field):
     return out
 
 
-def struct_inits(prog, adt):
-    """all (body, block, {field: operand}) aggregate constructions of adt"""
+def struct_inits(prog, adt, include_derived=False):
+    """all (body, block, {field: operand}) aggregate constructions of adt (derive-generated
+    impls such as Clone are skipped)"""
     out = []
     for b in prog.bodies.values():
         if not prog._is_code(b):
+            continue
+        if b.rec.get("derived") and not include_derived:
             continue
         for bi, si, st in b.statements():
             if st["s"] != "assign":
